@@ -97,7 +97,7 @@ def generate(seed, mode):
             ops.append({'op': 'nprov', 'o': o.randrange(8), 'x': o.randrange(nI), 'k': k})
         elif r < 0.8 and not restart:
             ops.append({'op': 'cdecl', 'c': o.randrange(ncls), 'xs': o.sample(range(nI), o.randint(0, min(2, nI))),
-                        'how': o.choice(['impl', 'only', 'first', 'cprov', 'calso', 'cno']), 'k': k})
+                        'how': o.choice(['impl', 'only', 'first', 'cprov', 'calso', 'cno', 'only_bad']), 'k': k})
         elif r < 0.86 and not restart:
             ops.append({'op': 'gc', 'k': k})
         else:
@@ -401,7 +401,12 @@ def execute_pickle(program, ctx, mode):
                 continue
             ob = obs[op['o'] % len(obs)]
             if name == 'dprov':
-                directlyProvides(ob, *[ifs[x % nI] for x in op['xs']])
+                args = [ifs[x % nI] for x in op['xs']]
+                if (op.get('k', 0) >> 5) % 4 == 0 and classes:
+                    # a declaration may be given as an argument: here the implementation specification of some class
+                    args.insert((op.get('k', 0) >> 9) % (len(args) + 1), implementedBy(classes[(op.get('k', 0) >> 11) % len(classes)]))
+                    ctx.probe('class-specification-as-declaration-argument')
+                directlyProvides(ob, *args)
             elif name == 'aprov':
                 alsoProvides(ob, *[ifs[x % nI] for x in op['xs']])
             else:
@@ -423,6 +428,15 @@ def execute_pickle(program, ctx, mode):
             elif how == 'first':
                 if xs:
                     classImplementsFirst(classes[c], xs[0])
+            elif how == 'only_bad':
+                # an *only* declaration that fails half-way (a list where interfaces are expected): the caller catches the
+                # error and carries on; the class specification must still pickle by reference afterwards
+                try:
+                    classImplementsOnly(classes[c], list(xs) or [ifs[0]])
+                    ctx.probe('only-declaration-with-a-list-accepted')
+                except TypeError:
+                    ctx.fault('failing-only-declaration')
+                only[c] = True
             elif how == 'calso':
                 alsoProvides(classes[c], *xs)          # extends the class's own provides-declaration after it exists
             elif how == 'cno':
